@@ -3099,7 +3099,14 @@ TSQuery *ts_query_new(
       // there is a parent node, and capture it if necessary.
       if (step->symbol == WILDCARD_SYMBOL && step->depth == 0 && !step->field) {
         QueryStep *second_step = array_get(&self->steps, start_step_index + 1);
-        if (second_step->symbol != WILDCARD_SYMBOL && second_step->depth == 1 && !second_step->is_immediate) {
+        if (
+          second_step->symbol != WILDCARD_SYMBOL &&
+          second_step->depth == 1 &&
+          !second_step->is_immediate &&
+          // An optional or alternated first child has other ways to continue
+          // than through this step; those must still begin at the wildcard.
+          second_step->alternative_index == NONE
+        ) {
           wildcard_root_alternative_index = step->alternative_index;
           start_step_index += 1;
           step = second_step;
